@@ -218,17 +218,30 @@ func c35() {
 			closed <- cerr
 		}()
 		var closeErr error
-		select {
-		case closeErr = <-closed:
-		case <-time.After(bound):
-			gap := hb.MaxGapSince(t0)
-			state, _, alive := procState(pid)
-			if gap >= time.Second {
-				r.Inconclusive("Close did not return on an unhealthy machine")
-			} else {
+		returned := false
+		// control-relative watchdog: a window of `bound` counts only if the heartbeat shows no
+		// scheduling gap >= 1 s inside it; otherwise another window is waited (at most five)
+		for window := 0; window < 5 && !returned; window++ {
+			w0 := time.Now()
+			select {
+			case closeErr = <-closed:
+				returned = true
+			case <-time.After(bound):
+				gap := hb.MaxGapSince(w0)
+				if gap >= time.Second {
+					r.Count("watchdog_windows_discarded_unhealthy", 1)
+					continue
+				}
+				state, _, alive := procState(pid)
 				r.Violation(map[string]string{"rule": "close-did-not-return", "behaviour": c.Behaviour},
-					fmt.Sprintf("Close() on the stream of a %q agent did not return within %v (heartbeat max gap %v; agent process alive=%v state=%s)", c.Behaviour, bound, gap, alive, state),
+					fmt.Sprintf("Close() on the stream of a %q agent did not return within %v (heartbeat max gap in that window %v; agent process alive=%v state=%s)", c.Behaviour, time.Since(t0).Round(time.Second), gap, alive, state),
 					map[string]any{"case": c, "agent_stderr": stderr.String()})
+				window = 99
+			}
+		}
+		if !returned {
+			if r.Violations() == 0 {
+				r.Inconclusive("Close did not return on an unhealthy machine")
 			}
 			syscall.Kill(pid, syscall.SIGKILL)
 			select {
